@@ -7,11 +7,11 @@ Import ListNotations.
 
 (** "if <test fails> { goto l }" *)
 Inductive cond :=
-| CDot                                 (* !matchDot() *)
-| CChar (c : rune)                     (* buffer[position] != c *)
-| CRange (lo hi : rune)                (* c := buffer[position]; c < lo || c > hi *)
-| CCall (r : nat)                      (* !_rules[r]() *)
-| CPredTest.                           (* !predicate *)
+| QDot                                 (* !matchDot() *)
+| QChar (c : rune)                     (* buffer[position] != c *)
+| QRange (lo hi : rune)                (* c := buffer[position]; c < lo || c > hi *)
+| QCall (r : nat)                      (* !_rules[r]() *)
+| QPred.                           (* !predicate *)
 
 Inductive scode :=
 | SInc                                 (* position++ *)
@@ -85,13 +85,13 @@ Fixpoint semit (n : nat) (e : expr) (ko : nat) (pd mk : bool) (l : nat) {struct 
   | O => ([], l, false)
   | S n =>
     match e with
-    | EDot => if pd then ([], l, false) else ([SCond CDot ko], l, false)
-    | EChar c => if (pd && negb mk)%bool then ([SInc], l, false) else ([SCond (CChar c) ko; SInc], l, false)
-    | ERange lo hi => if pd then ([SInc], l, false) else ([SCond (CRange lo hi) ko; SInc], l, false)
+    | EDot => if pd then ([], l, false) else ([SCond QDot ko], l, false)
+    | EChar c => if (pd && negb mk)%bool then ([SInc], l, false) else ([SCond (QChar c) ko; SInc], l, false)
+    | ERange lo hi => if pd then ([SInc], l, false) else ([SCond (QRange lo hi) ko; SInc], l, false)
     | EName r =>
         if inl r then let '(c, l1, _) := sipush_emit (semit n) r ko pd mk l in (c, l1, false)
-        else if asu r then ([SCallAsu r], l, false) else ([SCond (CCall r) ko], l, false)
-    | EPred k => ([SBlock [SPredSet k; SCond CPredTest ko]], l, false)
+        else if asu r then ([SCallAsu r], l, false) else ([SCond (QCall r) ko], l, false)
+    | EPred k => ([SBlock [SPredSet k; SCond QPred ko]], l, false)
     | EState k => ([SState k], l, false)
     | EAct _ | ENil => ([], l, false)
     | ESeq es => sseq_emit (semit n) es ko pd mk l false
@@ -174,6 +174,51 @@ Definition semit_all (g : grammar) (ptx : nat) (ast inline : bool) (asu undef : 
   let fl := fuel g in
   let dj := dry_jumps_of g ast inline asu undef cr fl in
   spass g ptx ast inline asu undef cr fl true (used_of dj) g 0 0.
+
+(** * the side condition of the soundness theorem (Proofs/SEmitSound.v), decidable
+    the emission had fuel for the whole expression, every rule it reaches exists, the emitter compiles a rule in
+    place exactly where the machine does ([inlo]: the machine's table, [inl]: the emitter's test) and every rule
+    that is called has a function *)
+Section Deep.
+Variable g : grammar.
+Variable inlo inl callable : nat -> bool.
+
+Fixpoint deep (nf : nat) (e : expr) : bool :=
+  match nf with
+  | O => false
+  | S nf =>
+    match e with
+    | EName r =>
+        match nth_error g r with
+        | Some (RBody b) => Bool.eqb (inl r) (inlo r) && (if inlo r then deep nf b else callable r)
+        | Some (RAct _) => Bool.eqb (inl r) (inlo r) && (if inlo r then true else callable r)
+        | _ => false
+        end
+    | ESeq es => forallb (deep nf) es
+    | EAlt es => match es with [] => false | _ => forallb (deep nf) es end
+    | ESwitch cs d => forallb (fun kc : list rune * expr => deep nf (snd kc)) cs && deep nf d
+    | EAnd e1 | ENot e1 | EQuery e1 | EStar e1 | EPlus e1 | EPush e1 => deep nf e1
+    | _ => true
+    end
+  end.
+
+Definition rdeep (nf : nat) (r : nat) : bool :=
+  match nth_error g r with Some (RBody b) => deep nf b | Some (RAct _) => true | _ => false end.
+End Deep.
+
+(** for every rule that has a function: the fuel covers its body through the rules compiled into it, every
+    name in it stands for a rule that exists and, when called, has a function, no choice is empty, and no rule
+    that is reached refers to the first rule when the emitter would compile it in place (it cannot: the first
+    rule's count includes the parser's own reference) *)
+Definition deep_table_b (g : grammar) (inline : bool) : bool :=
+  let cr := count_rules g in
+  let it := inline_table inline g in
+  forallb (fun r => implb (reached cr r && negb (nth r it false))%bool
+                          (match nth_error g r with
+                           | Some RNil | None => true
+                           | _ => rdeep g (fun r => nth r it false) (once inline cr) (reached cr) (fuel g) r
+                           end))
+          (seq 0 (length g)).
 
 (** forgetting which statement is which gives the skeleton *)
 Fixpoint forget1 (x : scode) : list code :=
